@@ -4,6 +4,7 @@
 // cfg: [0] n stations declared, [1] p (-1 = own address absent), [2] decoy (0 none, 1 near-miss addresses, 2 own address straddling two slots),
 //      [3] table class 0..6, [4] opcode, [5] ToS, [6] real destination broadcast?, [7] held (-1 = n; else stations really inside the received length),
 //      [8] generation, [9] xid, [10] Reset/other frames: Ethernet destination broadcast? (independent of the real destination),
+//      [12] the frame's real source is this station's own address (an echo of something it sent itself) - classification must not depend on it
 //      [11] extra station slots the frame carries BEYOND the declared count (the own address is put into the first of them: it must not count)
 enum { T_NULL, T_EMPTY, T_SAME_SAME_XID, T_SAME_OTHER_XID, T_SAME_MAPPER_OTHER_GEN, T_OTHER_MAPPER_SAME_GEN, T_FULL_OTHERS, T_HOLE_THEN_OTHER_XID, T_HOLE_THEN_SAME_XID, T_SAME_SAME_XID_COMPLETE, T_SAME_OTHER_XID_COMPLETE, T_NCLASSES };
 
@@ -38,10 +39,11 @@ static Verdict run(const Case &c) {
     int extra = (int)std::max<int64_t>(0, std::min<int64_t>(c.c(11), 8));
     if (held < n) extra = 0;
     Bytes f;
+    const Mac SRC = c.c(12) ? OWN : MAPPER;
     if (opcode == OP_DISCOVER) {
-        f = mk_discover(MAPPER, MAPPER, (uint8_t)tos, xid, gen, st);
+        f = mk_discover(SRC, SRC, (uint8_t)tos, xid, gen, st);
         for (int i = 0; i < extra; i++) putmac(f, i == 0 ? OWN : mac_from_u64(0x0600EE000000ULL + (uint64_t)i));   // received bytes after the declared list
-    } else { f = mk_header(edst, MAPPER, (uint8_t)tos, (uint8_t)opcode, rdst, MAPPER, xid); Bytes body(20, 0x77); f.insert(f.end(), body.begin(), body.end()); }
+    } else { f = mk_header(edst, SRC, (uint8_t)tos, (uint8_t)opcode, rdst, SRC, xid); Bytes body(20, 0x77); f.insert(f.end(), body.begin(), body.end()); }
     size_t len = opcode == OP_DISCOVER ? 36 + 6 * (size_t)(held + extra) : f.size();
     uint8_t *buf = (uint8_t *)malloc(MTU);
     memset(buf, 0xEE, MTU);
@@ -49,6 +51,7 @@ static Verdict run(const Case &c) {
     // ---- table
     void *t = tclass == T_NULL ? nullptr : br_st_create();
     bool changed = false;
+    const bool src_is_mapper = !c.c(12);
     Mac other = {{0x02, 0xAA, 0x00, 0x00, 0x00, 0x02}};
     switch (tclass) {
         case T_SAME_SAME_XID: br_st_add(t, MAPPER.b, gen, xid); break;
@@ -73,6 +76,7 @@ static Verdict run(const Case &c) {
     }
     Bytes before;
     if (t) before.assign((const uint8_t *)br_st_raw(t), (const uint8_t *)br_st_raw(t) + br_st_sizeof());
+    if (!src_is_mapper) changed = false;   // the table knows MAPPER, not the own address
     int ev = br_derive_session_event(buf, len, t, OWN.b);
     if (t && memcmp(before.data(), br_st_raw(t), br_st_sizeof()) != 0) v.fail("the classifier modified the session table");
     // ---- oracle (event numbers: 1 reset, 2 noack, 3 acking, 4 noack changed, 5 acking changed, 6 topology reset, 7 hello)
@@ -120,6 +124,7 @@ static bool one(const Args &a, Evidence &ev, std::vector<int64_t> cfg, const cha
 int main(int argc, char **argv) {
     Args a = parse_args(argc, argv);
     if (!a.replay.empty()) return replay_case(a, run);
+    zygote_start(run);   // before any code under test runs in this process
     Current::install(a.failing);
     Evidence ev;
     ev.rule = "derive_session_event (built without LLTD_TESTING) on harness-built frames in a malloc(1500) buffer. Enumerated: every (n, position) layout (quick: n <= 40; thorough: n <= 240, 29161 layouts) "
@@ -137,7 +142,7 @@ int main(int argc, char **argv) {
     for (int opc = 0; opc < 256 && ok; opc++)
         for (int bc = 0; bc < 4 && ok; bc++) {   // real destination broadcast? x Ethernet destination broadcast?
             if ((opc * 4 + bc) % a.nshards != a.shard || opc == OP_DISCOVER) continue;
-            ok = one(a, ev, {3, 1, 0, (opc + bc) % T_NCLASSES, opc, opc & 1, bc & 1, -1, 7, 9, bc >> 1, 0}, "c11-opcodes");
+            ok = one(a, ev, {3, 1, 0, (opc + bc) % T_NCLASSES, opc, opc & 1, bc & 1, -1, 7, 9, bc >> 1, 0, (opc % 5) == 1}, "c11-opcodes");
         }
     if (ok) {
         auto gen = rc::gen::exec([] {
@@ -147,7 +152,7 @@ int main(int argc, char **argv) {
             int64_t held = *gx::chance(25) ? *gx::range<int64_t>(0, n) : -1;
             int64_t opc = *gx::weighted<int64_t>({{12, rc::gen::just<int64_t>(0)}, {1, rc::gen::just<int64_t>(8)}, {1, rc::gen::just<int64_t>(1)}, {1, gx::range<int64_t>(0, 255)}});
             c.cfg = {n, p, *gx::pick({0, 0, 1, 2}), *gx::range<int64_t>(0, T_NCLASSES - 1), opc, *gx::pick({0, 1}), *gx::pick({0, 1}), held,
-                     *gx::bnd({0, 1, 0xFFFF}, 0, 0xFFFF, 1, 1), *gx::bnd({0, 1, 0xFFFF}, 0, 0xFFFF, 1, 1), *gx::pick({0, 1}), *gx::pick({0, 0, 1, 3})};
+                     *gx::bnd({0, 1, 0xFFFF}, 0, 0xFFFF, 1, 1), *gx::bnd({0, 1, 0xFFFF}, 0, 0xFFFF, 1, 1), *gx::pick({0, 1}), *gx::pick({0, 0, 1, 3}), *gx::pick({0, 0, 0, 0, 1})};
             return c;
         });
         ok = run_cases(a, ev, "c11-random", a.n(200000, 2000000), 100, gen, run);
